@@ -115,6 +115,7 @@ def run(ctx):
                     dist["inner_select"] += int(n["graph"].get("selected") is not None)
                     walk(n["graph"])
         walk(gn)
+    n_rep = repeated_runs_part(ctx)
     obs_all, res = engine.run_cases(ctx, "C05", cases)
     nontrivial = set()
     for (a, b, ren) in groups:
@@ -134,13 +135,83 @@ def run(ctx):
         if len(gflat["nodes"]) >= 3:
             nontrivial.add(canon({"g": gnest["nodes"], "in": cases[b][1]["inputs"]}))
     ctx.coverage.update(
-        evaluations=len(cases), coq_checks=res["n"], distinct_nontrivial=len(nontrivial),
+        evaluations=len(cases) + n_rep, coq_checks=res["n"], distinct_nontrivial=len(nontrivial),
         rule="random DAGs (1-7 nodes; bindings, defaults incl. on edge-fed parameters) with a dependency-closed group wrapped into a nested "
              "graph, repeated to depth 1-3; bindings moved onto inner graphs; inner selections keeping what the outside consumes; wrapper inputs "
              "renamed (fresh names, swaps through temporaries, with the wrapper object used between renames); both runners; "
              "non-trivial = the flat graph has >=3 nodes",
         distribution=dist, samples=[{"flat": cases[0][0]["nodes"], "nested": cases[1][0]["nodes"]}] if cases else [],
         traces_validated_against_impl=len(obs_all), disagreements_checked=res["n"])
+
+
+def repeated_runs_part(ctx):
+    """The same graph objects run several times: nested == flat run after run, also when a node mutates the object it got
+    from its signature default (every run of either graph starts from a fresh copy of the default)."""
+    import asyncio
+    import warnings
+    from hypergraph import AsyncRunner, Graph, SyncRunner
+    from hypergraph.nodes import FunctionNode
+    rng = ctx.rng
+    n = 0
+    for _ in range(ctx.n(40, 400)):
+        shape = rng.choice(["list", "dict", "nested"])
+
+        def make_nodes():
+            default = {"list": [], "dict": {"log": []}, "nested": ([],)}[shape]
+            inner = {"list": lambda d: d, "dict": lambda d: d["log"], "nested": lambda d: d[0]}[shape]
+
+            def make_event(seed):
+                return ("ev", seed)
+
+            def remember(event, log=default):
+                inner(log).append(event)
+                return list(inner(log))
+
+            def summarize(history, title="log"):
+                return (title, tuple(history))
+            return (FunctionNode(make_event, name="make_event", output_name="event"),
+                    FunctionNode(remember, name="remember", output_name="history"),
+                    FunctionNode(summarize, name="summarize", output_name="report"))
+        a, b, c = make_nodes()
+        flat = Graph([a, b, c])
+        a, b, c = make_nodes()
+        depth = rng.choice([1, 2])
+        ren = rng.random() < 0.4
+        if depth == 1:
+            w = Graph([b, c], name="journal").as_node()
+        else:
+            w = Graph([Graph([b], name="keeper").as_node(), c], name="journal").as_node()
+        if ren:
+            w = w.with_inputs(log="journal_log")
+        nested = Graph([a, w])
+        is_async = rng.random() < 0.5
+        runs = rng.randint(2, 4)
+        seeds = [rng.randint(0, 3) for _ in range(runs)]
+
+        def go(G):
+            out = []
+            with warnings.catch_warnings():
+                warnings.simplefilter("ignore")
+                for sd in seeds:
+                    if is_async:
+                        r = asyncio.run(AsyncRunner().run(G, {"seed": sd}))
+                    else:
+                        r = SyncRunner().run(G, {"seed": sd})
+                    out.append((r.status.value, {k: r.values.get(k) for k in ("event", "history", "report")}))
+            return out
+        try:
+            rf, rn = go(flat), go(nested)
+        except Exception as e:  # noqa: BLE001
+            ctx.violation("oracle", f"repeated runs raised {type(e).__name__}: {e}", case={"shape": shape, "depth": depth, "renamed": ren})
+            continue
+        n += 2 * runs
+        for k, (x, y) in enumerate(zip(rf, rn)):
+            if x != y:
+                ctx.violation("oracle", f"run #{k + 1} of the same graph objects: flat returns {x}, nested (depth {depth}{', wrapper input renamed' if ren else ''}) "
+                              f"returns {y} (a node mutating its {shape} default)",
+                              case={"shape": shape, "depth": depth, "renamed": ren, "seeds": seeds, "async": is_async})
+                break
+    return n
 
 
 def has_inner_selection(g):
